@@ -110,7 +110,7 @@ def go_build(pkg, test=False):
     ovflag = ("-overlay " + overlay) if use_overlay else ""
     with Lock("go"):
         if test:
-            cmd = "go test -c -tags verif %s -o %s ./%s" % (ovflag, out, pkg)
+            cmd = "go test -c -vet=off -tags verif %s -o %s ./%s" % (ovflag, out, pkg)
         else:
             cmd = "go build -tags verif %s -o %s ./%s" % (ovflag, out, pkg)
         rc, o = sh(cmd, cwd=HARNESS, env=go_env(), timeout=1800)
@@ -127,7 +127,7 @@ def run_driver(binary, cases, args="", timeout=1800, shards=1):
                            text=True, timeout=timeout)
         if p.returncode != 0:
             raise BuildError("driver %s failed rc=%s: %s" % (binary, p.returncode, p.stderr[-3000:]))
-        return [json.loads(l) for l in p.stdout.splitlines() if l.strip()]
+        return [json.loads(l) for l in p.stdout.splitlines() if l.startswith('{')]
     chunks = [cases[i::shards] for i in range(shards)]
     procs = []
     for ch in chunks:
@@ -143,7 +143,7 @@ def run_driver(binary, cases, args="", timeout=1800, shards=1):
         if procs[i].returncode != 0:
             results[i] = BuildError("driver shard failed: " + e[-2000:])
         else:
-            results[i] = [json.loads(l) for l in o.splitlines() if l.strip()]
+            results[i] = [json.loads(l) for l in o.splitlines() if l.startswith('{')]
     ths = [threading.Thread(target=work, args=(i,)) for i in range(shards)]
     [t.start() for t in ths]
     [t.join() for t in ths]
